@@ -114,7 +114,7 @@ theorem compileA_proj : ∀ p : Prog, proj (compileA p) = compile p
     rw [le]
     split
     · simp [proj_cons, proj_append, plain_el, ht, hr, lt]
-    · simp [proj_cons, proj_append, plain_el, ht, he, hr, lt, le]
+    · simp [proj_cons, proj_append, plain_el, ht, he, hr, lt]
   | .while c b r => by
     have hb := compileA_proj b
     have hr := compileA_proj r
@@ -150,5 +150,14 @@ theorem slideA_eq_slide (code : List AElem) (hc : AllCoherent code) :
       | next st' h' => exact slideA_eq_slide code hc f st' h' h
       | stop => rfl
       | err => rfl
+
+/-- `Slides` for the element dicts with their loop keys. -/
+def SlidesA (code : List AElem) (st : SSt) (pos : Int) (r : ARes) : Prop :=
+  ∃ f, ∀ prev, absRes (slideA f code st pos prev) = some r
+
+theorem slidesA_iff (p : Prog) (st : SSt) (pos : Int) (r : ARes) :
+    SlidesA (compileA p) st pos r ↔ Slides (compile p) st pos r := by
+  unfold SlidesA Slides
+  simp only [slideA_eq_slide _ (compileA_coherent p), compileA_proj]
 
 end NemoVerif.V1Annot
